@@ -39,6 +39,11 @@ def scenarios(ctx):
     out.append(("resubscribe-during-rebalance", gc.two_members(errs=e, topics={"t": 2, "u": 1}, stretch=True,
                                                                members=[dict(topics=["t"], assignors=["range"], resubscribe=[1.0, ["t", "u"]]),
                                                                         dict(topics=["t", "u"], assignors=["range"], start=1.0)], **tail), B))
+    # an application that stops polling for longer than max_poll_interval_ms (the heartbeat task then leaves the group) with
+    # records prefetched, and polls again afterwards
+    out.append(("idle-member", gc.two_members(errs=e, feed=[0.2, 10], poll_max_records=1,
+                                              members=[dict(topics=["t"], assignors=["range"], max_poll_interval_ms=700, idle=[0.6, 2.2]),
+                                                       dict(topics=["t"], assignors=["range"], start=0.3)], **tail), Q))
     out.append(("app-eager", gc.two_members(errs=e, baseline="app", stretch=True, **tail), Q))
     if not quick:
         out.append(("three", gc.two_members(errs=e, topics={"t": 3}, members=[dict(topics=["t"], assignors=["roundrobin"]),
